@@ -53,7 +53,7 @@ func c04GenIdent(rt *rapid.T, label string, small bool) string {
 
 func TestC04(t *testing.T) {
 	V.Rule("lab: rapid state machines over 1-12 concurrent dialogs per history on services with 2-6 UDP (and one TCP) backends: initial INVITE (UDP or TCP ingress) -> lands on some backend; that backend answers 100 / 18x with To-tag / 2xx / 4xx-6xx with To-tag from its configured address (UDP socket or the proxy's TCP connection); in-dialog ACK, BYE (never answered), re-INVITE, UPDATE, INFO, PRACK, MESSAGE, REFER, OPTIONS, NOTIFY, SUBSCRIBE in both directions (From/To swapped) from any user agent, plain or decorated (display names, URI parameters, compact names); backend-issued SUBSCRIBE answered by the user agent (Expires 3600 / 60 / 0 / absent), the first NOTIFY optionally sent right behind the 2xx from the same socket, refresh and un-subscribe (Expires: 0) by the backend, then NOTIFY in that dialog; unrelated out-of-dialog requests advancing the rotation in between; stray requests with both tags of an unknown dialog; one service instance with a dialog timeout of 2 s and pauses of 60-220 ms in its histories, where a pin younger than the timeout must survive every expiry sweep (older ones are don't-cares). Identifiers from small alphabets (tags containing '-', equal From and To URIs, tel:/urn: identities) or long ones. Oracle: model pins; a pinned in-dialog request must arrive at the pinned backend and at no other endpoint (FIFO barrier), unpinned/stray ones at exactly one backend. non-trivial = pinned in-dialog request for which the rotation alone would have picked another backend; distinct by (dialog shape, method, direction)")
-	V.Require("NOTIFY right behind the 2xx of a backend-issued SUBSCRIBE", "short timeout: pinned request after a pause", "pinned request while rotation points elsewhere", "direction: callee->service", "direction: caller->service", "method:ACK", "method:BYE", "method:INVITE", "method:UPDATE", "method:NOTIFY", "method:SUBSCRIBE", "pin by backend-issued SUBSCRIBE", "SUBSCRIBE answered with Expires: 0", "equal From and To URIs", "tag contains '-'", "unpinned dialog (only 100 so far)", "stray in-dialog request", "tcp backend pinned", "pin by non-2xx final with To-tag")
+	V.Require("CSeq written with more than one blank or a tab before the method", "NOTIFY right behind the 2xx of a backend-issued SUBSCRIBE", "short timeout: pinned request after a pause", "pinned request while rotation points elsewhere", "direction: callee->service", "direction: caller->service", "method:ACK", "method:BYE", "method:INVITE", "method:UPDATE", "method:NOTIFY", "method:SUBSCRIBE", "pin by backend-issued SUBSCRIBE", "SUBSCRIBE answered with Expires: 0", "equal From and To URIs", "tag contains '-'", "unpinned dialog (only 100 so far)", "stray in-dialog request", "tcp backend pinned", "pin by non-2xx final with To-tag")
 	// the last instance runs with a dialog timeout of 2 s: its expiry sweep runs
 	// every 2 s under the histories, which sometimes pause; a pin younger than
 	// the timeout must survive every sweep (older ones are don't-cares)
@@ -86,6 +86,10 @@ func TestC04(t *testing.T) {
 		l := s.in.cfg.Listens[0]
 		nb := len(l.Backends)
 		small := rapid.Bool().Draw(rt, "small identifiers")
+		// (white space between the CSeq number and the method: one blank, or what a
+		// lenient stack also writes; the answering backend echoes the header)
+		cseqSep := rapid.SampledFrom([]string{" ", " ", " ", " ", " ", "  ", "\t", " \t "}).Draw(rt, "blanks between CSeq number and method")
+		V.ClassIf(cseqSep != " ", "CSeq written with more than one blank or a tab before the method")
 		var dialogs []*c04Dialog
 		hist := []string{fmt.Sprintf("%d backends", nb)}
 		lastRR := "" // backend of the last load-balanced dispatch
@@ -113,6 +117,9 @@ func TestC04(t *testing.T) {
 			V.Journal(t.Name()+"/histories", hist)
 			s.in.expect(wire)
 			if err := send(wire); err != nil {
+				if _, lost := err.(labLost); lost {
+					failf(rt, "%v\nhistory: %v", err, hist)
+				}
 				V.HarnessError(rt, "send: %v", err)
 			}
 			rs, err := s.in.settle(send, 1)
@@ -132,8 +139,8 @@ func TestC04(t *testing.T) {
 			if tcp {
 				tr = "TCP"
 			}
-			return []byte(fmt.Sprintf("%s %s SIP/2.0\r\nVia: SIP/2.0/%s %s:5060;branch=z9hG4bK%s;rport\r\n%s: %s\r\n%s: %s\r\n%s: %s\r\nCSeq: %d %s\r\nMax-Forwards: 70\r\n%sContent-Length: 0\r\n\r\n",
-				method, ruri, tr, s.ip(10+ua), s.nextID("c04b"), names[0], from.String(), names[1], to.String(), names[2], callID, 1+len(hist), method, extra))
+			return []byte(fmt.Sprintf("%s %s SIP/2.0\r\nVia: SIP/2.0/%s %s:5060;branch=z9hG4bK%s;rport\r\n%s: %s\r\n%s: %s\r\n%s: %s\r\nCSeq: %d%s%s\r\nMax-Forwards: 70\r\n%sContent-Length: 0\r\n\r\n",
+				method, ruri, tr, s.ip(10+ua), s.nextID("c04b"), names[0], from.String(), names[1], to.String(), names[2], callID, 1+len(hist), cseqSep, method, extra))
 		}
 		decorate := func(rt *rapid.T, n ANameAddr, on bool) ANameAddr {
 			if !on {
